@@ -3,7 +3,7 @@
 import os, sys, json, subprocess, time, random, tempfile
 from . import core, runner, gen13
 
-TIERS = {'quick': {'workloads': 8, 'items': 1200, 'hashseeds': 8, 'extra_random': 0},
+TIERS = {'quick': {'workloads': 12, 'items': 1200, 'hashseeds': 8, 'extra_random': 0},
          'thorough': {'workloads': 40, 'items': 1500, 'hashseeds': 32, 'extra_random': 4}}
 WORKER = os.path.join(os.path.dirname(os.path.abspath(__file__)), 'hashseed_worker.py')
 
